@@ -376,7 +376,8 @@ class SymBool:
         return SymBool(z3.Not(r.t)) if isinstance(r, SymBool) else (not r)
 
     def __hash__(self) -> int:
-        raise Unsupported("hash of symbolic bool")
+        # used as a dict key (rmap[left == right]): case split, which is exhaustive
+        return hash(bool(self))
 
     def __and__(self, o: Any) -> Any:
         if not isinstance(o, (SymBool, bool)):
@@ -804,7 +805,7 @@ def int_pow(a: z3.ArithRef, n: z3.ArithRef) -> Any:
         # int ** negative int is a float (or ZeroDivisionError for 0)
         if c.branch(a == 0):
             raise ZeroDivisionError("0.0 cannot be raised to a negative power")
-        return SymFloat(z3.FP("powneg!" + str(len(c.trace)), z3.Float64()))
+        return SymFloat(_IPOWNEG(a, n))
     absa = z3.If(a >= 0, a, -a)
     bl = SymInt(a).bit_length().t
     # cost of the result in bits is ~ bit_length(a) * n unless |a| <= 1
@@ -1131,8 +1132,7 @@ class SymFloat:
             if c.branch(z3.And(z3.fpLT(a, z3.FPVal(0.0, F64)), z3.Not(z3.fpIsInf(a)), z3.Not(z3.fpIsInf(b)), z3.Not(_FPISINT(b)))):
                 return SymComplex()
         r = _FPFUN["pow"](a, b)
-        ovf = z3.Bool("pow_overflows!" + str(len(c.trace)))
-        c.vars[str(ovf)] = ovf
+        ovf = _FPOVF(a, b)
         if c.branch(z3.And(ovf, z3.Not(z3.fpIsInf(a)), z3.Not(z3.fpIsInf(b)), z3.Not(z3.fpIsNaN(a)), z3.Not(z3.fpIsNaN(b)))):
             raise OverflowError("(34, 'Numerical result out of range')")
         return SymFloat(r)
@@ -1191,6 +1191,8 @@ _FPFUN = {
 }
 _FPISINT = z3.Function("fp_is_integral", F64, z3.BoolSort())
 _I2F = z3.Function("int_to_float", z3.IntSort(), F64)
+_FPOVF = z3.Function("fp_pow_overflows", F64, F64, z3.BoolSort())
+_IPOWNEG = z3.Function("int_pow_negative", z3.IntSort(), z3.IntSort(), F64)
 _IDIV = z3.Function("int_truediv", z3.IntSort(), z3.IntSort(), F64)
 
 
@@ -1519,3 +1521,132 @@ class Kernel:
 def source_hash(path: str) -> str:
     with open(path, "rb") as f:
         return hashlib.sha256(f.read()).hexdigest()[:16]
+
+
+# --------------------------------------------------------------------------------------
+# z3 string theory proxy (used where contents matter: platform names, message texts)
+
+
+class SymZStr:
+    __slots__ = ("t",)
+
+    def __init__(self, t: Any):
+        self.t = t if not isinstance(t, str) else z3.StringVal(t)
+
+    @staticmethod
+    def _c(o: Any) -> Any:
+        if isinstance(o, SymZStr):
+            return o.t
+        if isinstance(o, str):
+            return z3.StringVal(o)
+        return None
+
+    def __eq__(self, o: Any) -> Any:  # type: ignore[override]
+        oz = self._c(o)
+        if oz is None:
+            return False
+        return SymBool(self.t == oz)
+
+    def __ne__(self, o: Any) -> Any:  # type: ignore[override]
+        return Not(self.__eq__(o))
+
+    def __hash__(self) -> int:
+        raise Unsupported("hash of symbolic string")
+
+    def startswith(self, p: Any) -> SymBool:
+        return SymBool(z3.PrefixOf(self._c(p), self.t))
+
+    def endswith(self, p: Any) -> SymBool:
+        return SymBool(z3.SuffixOf(self._c(p), self.t))
+
+    def __contains__(self, p: Any) -> bool:
+        return bool(SymBool(z3.Contains(self.t, self._c(p))))
+
+    def __symlen__(self) -> SymInt:
+        return SymInt(z3.Length(self.t))
+
+    def __add__(self, o: Any) -> "SymZStr":
+        return SymZStr(z3.Concat(self.t, self._c(o)))
+
+    def __radd__(self, o: Any) -> "SymZStr":
+        return SymZStr(z3.Concat(self._c(o), self.t))
+
+    def __symisinstance__(self, types: tuple) -> bool:
+        return str in types or object in types
+
+    def __lt__(self, o: Any) -> SymBool:
+        return SymBool(self.t < self._c(o))
+
+    def __le__(self, o: Any) -> SymBool:
+        return SymBool(self.t <= self._c(o))
+
+    def __gt__(self, o: Any) -> SymBool:
+        return SymBool(self._c(o) < self.t)
+
+    def __ge__(self, o: Any) -> SymBool:
+        return SymBool(self._c(o) <= self.t)
+
+    def __repr__(self) -> str:
+        return f"SymZStr({self.t})"
+
+
+def zstr(ctx: "Ctx", name: str, maxlen: "int | None" = None) -> SymZStr:
+    v = z3.String(name)
+    ctx.vars[name] = v
+    if maxlen is not None:
+        ctx.solver.add(z3.Length(v) <= maxlen)
+    return SymZStr(v)
+
+
+def sym_index(seq: Any, i: Any) -> Any:
+    """seq[i] for a concrete-length sequence and a symbolic int index (forks)."""
+    if not isinstance(i, SymInt):
+        return seq[i]
+    n = len(seq)
+    for k in range(-n, n):
+        if i == k:
+            return seq[k]
+    raise IndexError("tuple index out of range")
+
+
+def sym_bound(b: Any, n: int, default: int) -> int:
+    """Concretise one slice bound against length n exactly as CPython's slice.indices (step 1)."""
+    if b is None:
+        return default
+    if not isinstance(b, SymInt):
+        return slice(b, None).indices(n)[0] if True else 0
+    if b < 0:
+        b = b + n
+        if b < 0:
+            return 0
+    for k in range(0, n):
+        if b == k:
+            return k
+    return n
+
+
+def sym_slice(seq: Any, lo: Any, hi: Any) -> Any:
+    n = len(seq)
+    a = sym_bound(lo, n, 0)
+    b = sym_bound(hi, n, n)
+    return seq[a:b]
+
+
+class SymSeq:
+    """Concrete-length tuple whose indexing accepts symbolic ints/slices."""
+
+    def __init__(self, items: tuple):
+        self.items = tuple(items)
+
+    def __getitem__(self, i: Any) -> Any:
+        if isinstance(i, slice):
+            if i.step is not None and not (isinstance(i.step, int) and i.step == 1):
+                raise Unsupported("slice step")
+            return sym_slice(self.items, i.start, i.stop)
+        return sym_index(self.items, i)
+
+    def __len__(self) -> int:
+        return len(self.items)
+
+    def __iter__(self) -> Any:
+        return iter(self.items)
